@@ -139,6 +139,7 @@ Fixpoint hashable (v : pyval) : bool :=
   | VList _ | VDict _ | VSet _ | VByteArray _ => false
   | VTuple l => forallb hashable l
   | VFrozenSet l => forallb hashable l
+  | VInst _ fs _ => forallb (fun kv => hashable (snd kv)) fs   (* eq=True, frozen=True: hash(tuple(fields)) *)
   | _ => true
   end.
 
